@@ -109,7 +109,7 @@ Lemma srv_read_target s h S :
   crashed s = false -> readable_target (sdb s) h S ->
   server_step s (QRead h) = (s, Some (RRead (firstn (s_cmtu s - 1) S))).
 Proof.
-  intros Hc [Hh H]. unfold server_step. rewrite Hc. unfold srv_read.
+  intros Hc [Hh H]. unfold server_step. unfold srv_read.
   apply N.eqb_neq in Hh. rewrite Hh.
   destruct H as [(u & p & H1 & H2 & H3) | [H1 | (u & H1)]]; rewrite H1.
   - now rewrite H2, H3.
@@ -121,22 +121,22 @@ Lemma srv_blob_target s h S off :
   crashed s = false -> readable_target (sdb s) h S -> off <= length S ->
   server_step s (QBlob h off) = (s, Some (RBlob (slice off (off + (s_cmtu s - 1)) S))).
 Proof.
-  intros Hc [Hh H] Hoff. unfold server_step. rewrite Hc. unfold srv_blob.
+  intros Hc [Hh H] Hoff. unfold server_step. unfold srv_blob.
   apply N.eqb_neq in Hh. rewrite Hh.
-  assert (Hs : 1 <= s_cmtu s -> off + s_cmtu s - 1 = off + (s_cmtu s - 1)) by lia.
-  destruct (Nat.eq_dec off (length S)) as [He|Hne].
-  - (* offset = length: empty blob *)
-    rewrite (slice_end off _ S) by lia.
-    destruct H as [(u & p & H1 & H2 & H3) | [H1 | (u & H1)]]; rewrite H1; cbn [attr_value];
-      (replace (off <? length S) with false by (symmetry; apply Nat.ltb_ge; lia));
-      (replace (off =? length S) with true by (symmetry; apply Nat.eqb_eq; lia)); reflexivity.
-  - assert (Hlt : off <? length S = true) by (apply Nat.ltb_lt; lia).
-    assert (Hsl : slice off (off + s_cmtu s - 1) S = slice off (off + (s_cmtu s - 1)) S).
-    { unfold slice. f_equal. lia. }
-    destruct H as [(u & p & H1 & H2 & H3) | [H1 | (u & H1)]]; rewrite H1; cbn [attr_value]; rewrite Hlt.
-    + now rewrite H2, H3, Hsl.
-    + now rewrite Hsl.
-    + now rewrite Hsl.
+  assert (Hans : (if off <? length S then (s, Some (RBlob (slice off (off + s_cmtu s - 1) S)))
+                  else if off =? length S then (s, Some (RBlob []))
+                  else (s, Some (RErr OP_READ_BLOB h E_INVALID_OFFSET)))
+                 = (s, Some (RBlob (slice off (off + (s_cmtu s - 1)) S)))).
+  { destruct (Nat.eq_dec off (length S)) as [He|Hne].
+    - rewrite (slice_end off (off + (s_cmtu s - 1)) S) by lia.
+      replace (off <? length S) with false by (symmetry; apply Nat.ltb_ge; lia).
+      replace (off =? length S) with true by (symmetry; apply Nat.eqb_eq; lia). reflexivity.
+    - replace (off <? length S) with true by (symmetry; apply Nat.ltb_lt; lia).
+      unfold slice. replace (off + s_cmtu s - 1 - off) with (off + (s_cmtu s - 1) - off) by lia. reflexivity. }
+  destruct H as [(u & p & H1 & H2 & H3) | [H1 | (u & H1)]]; rewrite H1; cbn [blob_value].
+  - rewrite H2, H3. exact Hans.
+  - exact Hans.
+  - exact Hans.
 Qed.
 
 Lemma fits16_nat n : (N.of_nat n < 65536)%N -> fits16 (N.of_nat n) = true.
@@ -303,7 +303,7 @@ Proof.
   replace (mtu - 3 <? length v) with false by (symmetry; apply Nat.ltb_ge; lia).
   change {| c_mtu := mtu; c_cmtu := cm; c_q := []; c_locked := true |} with (mkc mtu cm [] true).
   rewrite ask_spec by (cbn [encodable]; now apply fits16_N).
-  unfold server_step. rewrite Hc. unfold srv_write.
+  unfold server_step. unfold srv_write.
   apply N.eqb_neq in Hh0. rewrite Hh0, Hlk, Hp.
   destruct (writeable p); reflexivity.
 Qed.
@@ -338,7 +338,7 @@ Proof.
   intros Hh Hv. induction n as [|n IH]; intros off ws s Hc Hlk Hwq Hoff; cbn [prep_loop chunks].
   - rewrite app_nil_r, <- Hwq. destruct s; reflexivity.
   - unfold xfer. cbn [encodable]. rewrite fits16_N by assumption. rewrite fits16_nat by lia.
-    cbn [andb]. unfold server_step. rewrite Hc. unfold srv_prepare. rewrite Hlk.
+    cbn [andb]. unfold server_step. unfold srv_prepare. rewrite Hlk.
     cbn [deliver]. unfold wait, set_q, mkc. cbn [c_q c_mtu c_cmtu c_locked app wait_in acc_prep].
     set (d := slice off (off + cs) v).
     change {| c_mtu := mtu; c_cmtu := cm; c_q := []; c_locked := true |} with (mkc mtu cm [] true).
@@ -397,13 +397,22 @@ Proof.
   - apply Nat.ltb_ge in E. nia.
 Qed.
 
-Lemma exec_pend d h u cur ws cur' :
-  lookup d h = Some (AValue u cur) -> apply_writes cur ws = (cur', true) ->
+Lemma exec_pend d h u cur ws cur' p :
+  lookup d h = Some (AValue u cur) -> owner_props d h = Some p -> writeable p = true ->
+  apply_writes cur ws = (cur', true) ->
   exec_queues d (pend h ws)
   = (match ws with [] => d | _ => update d h (AValue u cur') end, ExDone).
 Proof.
-  intros Hlk Ha. destruct ws as [|w ws]; cbn [pend exec_queues]; [reflexivity|].
-  rewrite Hlk, Ha. reflexivity.
+  intros Hlk Hp Hw Ha. destruct ws as [|w ws]; cbn [pend exec_queues]; [reflexivity|].
+  rewrite Hlk, Hp, Hw, Ha. reflexivity.
+Qed.
+
+Lemma exec_pend_denied d h u cur ws p :
+  lookup d h = Some (AValue u cur) -> owner_props d h = Some p -> writeable p = false -> ws <> [] ->
+  exec_queues d (pend h ws) = (d, ExDenied h).
+Proof.
+  intros Hlk Hp Hw Hne. destruct ws as [|w ws]; [congruence|]. cbn [pend exec_queues].
+  rewrite Hlk, Hp, Hw. reflexivity.
 Qed.
 
 (** [write_long_nolock] on a characteristic value, from a state with empty prepared queues:
@@ -411,7 +420,7 @@ Qed.
     its length, nothing else changes, the queues are empty again *)
 Lemma write_long_nolock_spec h u old p v mtu cm s :
   crashed s = false -> wq s = [] -> 23 <= mtu ->
-  value_at (sdb s) h u old p -> (N.of_nat (length v) < 65536)%N ->
+  value_at (sdb s) h u old p -> writeable p = true -> (N.of_nat (length v) < 65536)%N ->
   write_long_nolock h v (mkc mtu cm [] true) s
   = (Ok VTrue, mkc mtu cm [] true,
      set_wq (set_db s (match nb_chunks (length v) (mtu - 5) with
@@ -419,19 +428,19 @@ Lemma write_long_nolock_spec h u old p v mtu cm s :
                        | _ => update (sdb s) h (AValue u (v ++ skipn (length v) old))
                        end)) []).
 Proof.
-  intros Hc Hwq Hm (Hh0 & Hh & Hlk & Hp) Hv.
+  intros Hc Hwq Hm (Hh0 & Hh & Hlk & Hp) Hw Hv.
   unfold write_long_nolock. cbn [mkc c_mtu].
   change {| c_mtu := mtu; c_cmtu := cm; c_q := []; c_locked := true |} with (mkc mtu cm [] true).
   rewrite (prep_loop_spec h v (mtu - 5) mtu cm (AValue u old) Hh Hv _ 0 [] s); try assumption; try lia.
   cbn [app].
   rewrite ask_spec by reflexivity.
-  unfold server_step. cbn [set_wq crashed sdb wq]. rewrite Hc. unfold srv_execute.
+  unfold server_step. cbn [set_wq crashed sdb wq]. unfold srv_execute.
   cbn [N.eqb Pos.eqb set_wq crashed sdb wq].
   pose proof (nb_chunks_cover (length v) (mtu - 5) ltac:(lia)) as Hcov.
   assert (Ha : apply_writes old (chunks (nb_chunks (length v) (mtu - 5)) v (mtu - 5) 0)
                = (v ++ skipn (length v) old, true)).
   { change old with (firstn 0 v ++ skipn 0 old) at 1. apply apply_chunks; lia. }
-  rewrite (exec_pend _ _ _ _ _ _ Hlk Ha).
+  rewrite (exec_pend _ _ _ _ _ _ _ Hlk Hp Hw Ha).
   cbn [fst snd ask_outcome acc_exec set_db set_wq sdb wq s_cmtu s_smtu crashed].
   destruct (nb_chunks (length v) (mtu - 5)); cbn [chunks]; reflexivity.
 Qed.
@@ -450,24 +459,63 @@ Proof. intros Hcs H. pose proof (nb_chunks_cover len cs Hcs). lia. Qed.
 (** same, in the form used by the theorems: the database after the procedure *)
 Lemma write_long_nolock_db h u old p v mtu cm s :
   crashed s = false -> wq s = [] -> 23 <= mtu ->
-  value_at (sdb s) h u old p -> (N.of_nat (length v) < 65536)%N ->
+  value_at (sdb s) h u old p -> writeable p = true -> (N.of_nat (length v) < 65536)%N ->
   write_long_nolock h v (mkc mtu cm [] true) s
   = (Ok VTrue, mkc mtu cm [] true,
      set_wq (set_db s (update (sdb s) h (AValue u (v ++ skipn (length v) old)))) []).
 Proof.
-  intros Hc Hwq Hm Hva Hv. rewrite write_long_nolock_spec with (u := u) (old := old) (p := p) by assumption.
+  intros Hc Hwq Hm Hva Hw Hv. rewrite write_long_nolock_spec with (u := u) (old := old) (p := p) by assumption.
   destruct (nb_chunks (length v) (mtu - 5)) eqn:E; [|reflexivity].
   apply nb_chunks_zero in E; [|lia].
   destruct v; [|discriminate]. cbn [length app skipn].
   destruct Hva as (_ & _ & Hlk & _). now rewrite update_same.
 Qed.
 
+Lemma chunks_nonempty v cs : 0 < cs -> v <> [] -> chunks (nb_chunks (length v) cs) v cs 0 <> [].
+Proof.
+  intros Hcs Hv. destruct (nb_chunks (length v) cs) eqn:E; [|cbn [chunks]; discriminate].
+  apply nb_chunks_zero in E; [|assumption]. destruct v; [congruence|discriminate].
+Qed.
+
+(** the characteristic is not writable: the Execute Write is refused, nothing is stored, the
+    prepared queue is emptied *)
+Lemma write_long_nolock_denied h u old p v mtu cm s :
+  crashed s = false -> wq s = [] -> 23 <= mtu ->
+  value_at (sdb s) h u old p -> writeable p = false -> v <> [] -> (N.of_nat (length v) < 65536)%N ->
+  write_long_nolock h v (mkc mtu cm [] true) s
+  = (Raise (EAtt E_WRITE_NOT_PERMITTED), mkc mtu cm [] true, set_wq s []).
+Proof.
+  intros Hc Hwq Hm (Hh0 & Hh & Hlk & Hp) Hw Hne Hv.
+  unfold write_long_nolock. cbn [mkc c_mtu].
+  change {| c_mtu := mtu; c_cmtu := cm; c_q := []; c_locked := true |} with (mkc mtu cm [] true).
+  rewrite (prep_loop_spec h v (mtu - 5) mtu cm (AValue u old) Hh Hv _ 0 [] s); try assumption; try lia.
+  cbn [app]. rewrite ask_spec by reflexivity.
+  unfold server_step. cbn [set_wq crashed sdb wq]. unfold srv_execute.
+  cbn [N.eqb Pos.eqb set_wq crashed sdb wq].
+  rewrite (exec_pend_denied _ _ _ _ _ _ Hlk Hp Hw (chunks_nonempty v (mtu - 5) ltac:(lia) Hne)).
+  reflexivity.
+Qed.
+
+(** a zero-length long write sends no Prepare Write: the Execute Write finds an empty queue *)
+Lemma write_long_nolock_empty h mtu cm s :
+  wq s = [] -> 23 <= mtu ->
+  write_long_nolock h [] (mkc mtu cm [] true) s = (Ok VTrue, mkc mtu cm [] true, set_wq (set_db s (sdb s)) []).
+Proof.
+  intros Hwq Hm. unfold write_long_nolock. cbn [mkc c_mtu length].
+  replace (nb_chunks 0 (mtu - 5)) with 0%nat.
+  2:{ unfold nb_chunks. rewrite Nat.div_0_l, Nat.mod_0_l by lia. reflexivity. }
+  cbn [prep_loop].
+  change {| c_mtu := mtu; c_cmtu := cm; c_q := []; c_locked := true |} with (mkc mtu cm [] true).
+  rewrite ask_spec by reflexivity.
+  unfold server_step, srv_execute. cbn [N.eqb Pos.eqb]. rewrite Hwq. reflexivity.
+Qed.
+
 Lemma client_write_long_spec c s mtu h u old p v :
-  clean c s mtu -> value_at (sdb s) h u old p -> (N.of_nat (length v) < 65536)%N ->
+  clean c s mtu -> value_at (sdb s) h u old p -> writeable p = true -> (N.of_nat (length v) < 65536)%N ->
   client_write_long h v c s
   = (Ok VTrue, c, set_wq (set_db s (update (sdb s) h (AValue u (v ++ skipn (length v) old)))) []).
 Proof.
-  intros [Hl Hq Hw Hc Hm1 Hm2 Hm] Hva Hv.
+  intros [Hl Hq Hw Hc Hm1 Hm2 Hm] Hva Hwr Hv.
   destruct c as [m cm q l]. cbn in Hl, Hq, Hm1. subst l q m.
   unfold client_write_long, proclock, set_lock. cbn [c_locked c_mtu c_cmtu c_q].
   change {| c_mtu := mtu; c_cmtu := cm; c_q := []; c_locked := true |} with (mkc mtu cm [] true).
@@ -477,18 +525,47 @@ Qed.
 
 (** [write] of more than MTU-3 bytes is the long write *)
 Lemma write_redirects c s mtu h u old p v :
-  clean c s mtu -> value_at (sdb s) h u old p -> (N.of_nat (length v) < 65536)%N ->
+  clean c s mtu -> value_at (sdb s) h u old p -> writeable p = true -> (N.of_nat (length v) < 65536)%N ->
   mtu - 3 < length v ->
   client_write h v c s
   = (Ok VTrue, c, set_wq (set_db s (update (sdb s) h (AValue u (v ++ skipn (length v) old)))) []).
 Proof.
-  intros [Hl Hq Hw Hc Hm1 Hm2 Hm] Hva Hv Hlen.
+  intros [Hl Hq Hw Hc Hm1 Hm2 Hm] Hva Hwr Hv Hlen.
   destruct c as [m cm q l]. cbn in Hl, Hq, Hm1. subst l q m.
   unfold client_write, proclock, set_lock. cbn [c_locked c_mtu c_cmtu c_q].
   replace (mtu - 3 <? length v) with true by (symmetry; apply Nat.ltb_lt; lia).
   change {| c_mtu := mtu; c_cmtu := cm; c_q := []; c_locked := true |} with (mkc mtu cm [] true).
   rewrite write_long_nolock_db with (u := u) (old := old) (p := p) by assumption.
   reflexivity.
+Qed.
+
+(** long path to a characteristic that is not writable: refused when executed *)
+Lemma write_long_denied c s mtu h u old p v :
+  clean c s mtu -> value_at (sdb s) h u old p -> writeable p = false -> v <> [] ->
+  (N.of_nat (length v) < 65536)%N ->
+  client_write_long h v c s = (Raise (EAtt E_WRITE_NOT_PERMITTED), c, set_wq s [])
+  /\ (mtu - 3 < length v -> client_write h v c s = (Raise (EAtt E_WRITE_NOT_PERMITTED), c, set_wq s [])).
+Proof.
+  intros [Hl Hq Hw Hc Hm1 Hm2 Hm] Hva Hwr Hne Hv.
+  destruct c as [m cm q l]. cbn in Hl, Hq, Hm1. subst l q m.
+  split.
+  - unfold client_write_long, proclock, set_lock. cbn [c_locked c_mtu c_cmtu c_q].
+    change {| c_mtu := mtu; c_cmtu := cm; c_q := []; c_locked := true |} with (mkc mtu cm [] true).
+    rewrite write_long_nolock_denied with (u := u) (old := old) (p := p) by assumption. reflexivity.
+  - intros Hlen. unfold client_write, proclock, set_lock. cbn [c_locked c_mtu c_cmtu c_q].
+    replace (mtu - 3 <? length v) with true by (symmetry; apply Nat.ltb_lt; lia).
+    change {| c_mtu := mtu; c_cmtu := cm; c_q := []; c_locked := true |} with (mkc mtu cm [] true).
+    rewrite write_long_nolock_denied with (u := u) (old := old) (p := p) by assumption. reflexivity.
+Qed.
+
+Lemma client_write_long_empty c s mtu h :
+  clean c s mtu -> client_write_long h [] c s = (Ok VTrue, c, set_wq (set_db s (sdb s)) []).
+Proof.
+  intros [Hl Hq Hw Hc Hm1 Hm2 Hm].
+  destruct c as [m cm q l]. cbn in Hl, Hq, Hm1. subst l q m.
+  unfold client_write_long, proclock, set_lock. cbn [c_locked c_mtu c_cmtu c_q].
+  change {| c_mtu := mtu; c_cmtu := cm; c_q := []; c_locked := true |} with (mkc mtu cm [] true).
+  rewrite write_long_nolock_empty by assumption. reflexivity.
 Qed.
 
 Lemma tail_nil (v old : bytes) : length old <= length v -> v ++ skipn (length v) old = v.
@@ -503,7 +580,7 @@ Proof.
   destruct c as [m cm q l]. cbn in Hl, Hq, Hm1. subst l q m.
   unfold client_write_command, proclock, set_lock, xfer. cbn [c_locked c_mtu c_cmtu c_q encodable].
   rewrite fits16_N by assumption.
-  unfold server_step. rewrite Hc. unfold srv_write_cmd.
+  unfold server_step. unfold srv_write_cmd.
   apply N.eqb_neq in Hh0. rewrite Hh0, Hlk, Hp, Hwr. reflexivity.
 Qed.
 
@@ -518,7 +595,7 @@ Proof.
   unfold client_set_mtu, proclock, set_lock, xfer. cbn [c_locked c_mtu c_cmtu c_q encodable].
   replace (23 <=? m) with true by (symmetry; apply Nat.leb_le; lia).
   rewrite fits16_nat by assumption.
-  unfold server_step. rewrite Hc. unfold srv_mtu.
+  unfold server_step. unfold srv_mtu.
   replace (23 <=? m) with true by (symmetry; apply Nat.leb_le; lia).
   cbn [s_smtu deliver]. unfold wait, set_q. cbn [c_q app wait_in acc_mtu c_mtu c_cmtu c_locked releases].
   replace (23 <=? m) with true by (symmetry; apply Nat.leb_le; lia).
@@ -611,7 +688,7 @@ Qed.
 
 Lemma srv_read_state s h : sinv s -> fst (server_step s (QRead h)) = s.
 Proof.
-  intros [Hc _ [W1 _] _]. unfold server_step. rewrite Hc. unfold srv_read.
+  intros [Hc _ [W1 _] _]. unfold server_step. unfold srv_read.
   destruct (N.eqb h 0); [reflexivity|].
   destruct (lookup (sdb s) h) as [[]|] eqn:E; try reflexivity.
   destruct (W1 _ _ _ E) as [p Hp]. rewrite Hp. destruct (readable p); reflexivity.
@@ -619,24 +696,22 @@ Qed.
 
 Lemma srv_blob_state s h off : sinv s -> fst (server_step s (QBlob h off)) = s.
 Proof.
-  intros [Hc _ [W1 W2] _]. unfold server_step. rewrite Hc. unfold srv_blob.
+  intros [Hc _ [W1 W2] _]. unfold server_step. unfold srv_blob.
   destruct (N.eqb h 0); [reflexivity|].
   destruct (lookup (sdb s) h) as [a|] eqn:E; [|reflexivity].
-  assert (Hav : exists av, attr_value (sdb s) a = Some av).
-  { destruct a; cbn [attr_value]; eauto.
-    destruct (W2 _ _ _ _ E) as (u' & v & Hv). rewrite Hv. eauto. }
-  destruct Hav as [av Hav]. rewrite Hav.
-  destruct (off <? length av).
-  - destruct a; try reflexivity.
-    destruct (W1 _ _ _ E) as [p Hp]. rewrite Hp. destruct (readable p); reflexivity.
-  - destruct (off =? length av); reflexivity.
+  assert (Hans : forall av, fst (if off <? length av then (s, Some (RBlob (slice off (off + s_cmtu s - 1) av)))
+                                 else if off =? length av then (s, Some (RBlob []))
+                                 else (s, Some (RErr OP_READ_BLOB h E_INVALID_OFFSET))) = s).
+  { intros av. destruct (off <? length av); [reflexivity|]. destruct (off =? length av); reflexivity. }
+  destruct a; try apply Hans.
+  destruct (W1 _ _ _ E) as [p Hp]. rewrite Hp. destruct (readable p); [apply Hans|reflexivity].
 Qed.
 
 Lemma srv_write_state s h v :
   sinv s -> (N.of_nat (length v) < 65536)%N ->
   sinv (fst (server_step s (QWrite h v))) /\ s_cmtu (fst (server_step s (QWrite h v))) = s_cmtu s.
 Proof.
-  intros Hs Hv. pose proof Hs as [Hc Hq [W1 W2] Hl]. unfold server_step. rewrite Hc. unfold srv_write.
+  intros Hs Hv. pose proof Hs as [Hc Hq [W1 W2] Hl]. unfold server_step. unfold srv_write.
   destruct (N.eqb h 0); [auto|].
   destruct (lookup (sdb s) h) as [[]|] eqn:E; cbn [fst]; auto.
   - destruct (W1 _ _ _ E) as [p Hp]. rewrite Hp. destruct (writeable p); cbn [fst]; auto.
@@ -655,7 +730,7 @@ Lemma srv_write_cmd_state s h v :
   sinv s -> (N.of_nat (length v) < 65536)%N ->
   sinv (fst (server_step s (QWriteCmd h v))) /\ s_cmtu (fst (server_step s (QWriteCmd h v))) = s_cmtu s.
 Proof.
-  intros Hs Hv. pose proof Hs as [Hc Hq [W1 W2] Hl]. unfold server_step. rewrite Hc. unfold srv_write_cmd.
+  intros Hs Hv. pose proof Hs as [Hc Hq [W1 W2] Hl]. unfold server_step. unfold srv_write_cmd.
   destruct (N.eqb h 0); [auto|].
   destruct (lookup (sdb s) h) as [[]|] eqn:E; cbn [fst]; auto.
   - destruct (W1 _ _ _ E) as [p Hp]. rewrite Hp. destruct (writeable p); cbn [fst]; auto.
@@ -703,7 +778,7 @@ Definition rl_resp (bound off : nat) (r : option rsp) : Prop :=
 
 Lemma srv_read_resp s h : sinv s -> rl_resp (max_len (sdb s)) 0 (snd (server_step s (QRead h))).
 Proof.
-  intros [Hc _ [W1 _] _]. unfold server_step. rewrite Hc. unfold srv_read.
+  intros [Hc _ [W1 _] _]. unfold server_step. unfold srv_read.
   destruct (N.eqb h 0); [exact I|].
   destruct (lookup (sdb s) h) as [[]|] eqn:E; cbn [snd rl_resp]; try exact I;
     pose proof (lookup_stored_le _ _ _ E) as Hle; cbn [stored_len] in Hle.
@@ -717,22 +792,24 @@ Qed.
 
 Lemma srv_blob_resp s h off : sinv s -> rl_resp (max_len (sdb s)) off (snd (server_step s (QBlob h off))).
 Proof.
-  intros [Hc _ [W1 W2] _]. unfold server_step. rewrite Hc. unfold srv_blob.
+  intros [Hc _ [W1 W2] _]. unfold server_step. unfold srv_blob.
   destruct (N.eqb h 0); [exact I|].
   destruct (lookup (sdb s) h) as [a|] eqn:E; [|exact I].
-  assert (Hav : exists av, attr_value (sdb s) a = Some av).
-  { destruct a; cbn [attr_value]; eauto.
-    destruct (W2 _ _ _ _ E) as (u' & v & Hv). rewrite Hv. eauto. }
-  destruct Hav as [av Hav]. rewrite Hav.
   pose proof (lookup_stored_le _ _ _ E) as Hle.
-  destruct (off <? length av) eqn:Elt.
-  - apply Nat.ltb_lt in Elt.
-    destruct a; cbn [snd rl_resp attr_value stored_len] in *; try exact I.
-    + destruct (W1 _ _ _ E) as [p Hp]. rewrite Hp. destruct (readable p); cbn [snd rl_resp]; [|exact I].
-      injection Hav as <-. right. rewrite slice_length. lia.
-    + injection Hav as <-. right. rewrite slice_length. lia.
-    + injection Hav as <-. right. rewrite slice_length. lia.
-  - destruct (off =? length av); cbn [snd rl_resp]; auto.
+  assert (Hans : forall av, length av <= max_len (sdb s) ->
+            rl_resp (max_len (sdb s)) off
+              (snd (if off <? length av then (s, Some (RBlob (slice off (off + s_cmtu s - 1) av)))
+                    else if off =? length av then (s, Some (RBlob []))
+                    else (s, Some (RErr OP_READ_BLOB h E_INVALID_OFFSET))))).
+  { intros av Hav. destruct (off <? length av) eqn:Elt.
+    - apply Nat.ltb_lt in Elt. cbn [snd rl_resp]. right. rewrite slice_length. lia.
+    - destruct (off =? length av); cbn [snd rl_resp]; auto. }
+  destruct a; cbn [blob_value stored_len] in *.
+  - apply Hans. lia.
+  - apply Hans. unfold decl_payload, le16. cbn [length app]. lia.
+  - destruct (W1 _ _ _ E) as [p Hp]. rewrite Hp. destruct (readable p); [apply Hans; lia|exact I].
+  - apply Hans. lia.
+  - apply Hans. lia.
 Qed.
 
 Lemma read_long_loop_usable s h mtu cm :
@@ -810,25 +887,36 @@ Proof.
     change {| c_mtu := mtu; c_cmtu := cm; c_q := []; c_locked := true |} with (mkc mtu cm [] true).
     rewrite (prep_loop_spec h v (mtu - 5) mtu cm a Hh Hv _ 0 [] s); try assumption; try lia.
     cbn [app]. rewrite ask_spec by reflexivity.
-    unfold server_step. cbn [set_wq crashed sdb wq]. rewrite Hc. unfold srv_execute.
+    unfold server_step. cbn [set_wq crashed sdb wq]. unfold srv_execute.
     cbn [N.eqb Pos.eqb set_wq crashed sdb wq].
     assert (Hcases : (exists u old, a = AValue u old) \/ (forall u x, a <> AValue u x)).
     { destruct a; try (right; intros; discriminate). left; eauto. }
     destruct Hcases as [(u & old & ->) | Hother].
-    + pose proof (nb_chunks_cover (length v) (mtu - 5) ltac:(lia)) as Hcov.
-      assert (Ha : apply_writes old (chunks (nb_chunks (length v) (mtu - 5)) v (mtu - 5) 0)
-                   = (v ++ skipn (length v) old, true)).
-      { change old with (firstn 0 v ++ skipn 0 old) at 1. apply apply_chunks; lia. }
-      rewrite (exec_pend _ _ _ _ _ _ Elk Ha).
-      cbn [fst snd ask_outcome acc_exec set_db set_wq sdb wq s_cmtu s_smtu crashed].
-      eexists _, _. split; [reflexivity|]. split; [exact I|]. split; [|reflexivity].
-      constructor; cbn [crashed wq sdb]; auto.
-      * destruct (chunks _ _ _ _); [exact (conj W1 W2)|].
-        eapply wf_same_shape; [exact (conj W1 W2)|]. eapply same_shape_update_value; eauto.
-      * destruct (chunks _ _ _ _); [assumption|].
-        pose proof (max_len_update (sdb s) h (AValue u (v ++ skipn (length v) old))) as Hmx.
-        pose proof (lookup_stored_le _ _ _ Elk) as Hle. cbn [stored_len] in Hmx, Hle.
-        rewrite app_length, skipn_length in Hmx. clear Hcov. cbn [sdb set_wq set_db]. lia.
+    + destruct (W1 _ _ _ Elk) as [p Hp].
+      destruct (writeable p) eqn:Hw.
+      * pose proof (nb_chunks_cover (length v) (mtu - 5) ltac:(lia)) as Hcov.
+        assert (Ha : apply_writes old (chunks (nb_chunks (length v) (mtu - 5)) v (mtu - 5) 0)
+                     = (v ++ skipn (length v) old, true)).
+        { change old with (firstn 0 v ++ skipn 0 old) at 1. apply apply_chunks; lia. }
+        rewrite (exec_pend _ _ _ _ _ _ _ Elk Hp Hw Ha).
+        cbn [fst snd ask_outcome acc_exec set_db set_wq sdb wq s_cmtu s_smtu crashed].
+        eexists _, _. split; [reflexivity|]. split; [exact I|]. split; [|reflexivity].
+        constructor; cbn [crashed wq sdb]; auto.
+        -- destruct (chunks _ _ _ _); [exact (conj W1 W2)|].
+           eapply wf_same_shape; [exact (conj W1 W2)|]. eapply same_shape_update_value; eauto.
+        -- destruct (chunks _ _ _ _); [assumption|].
+           pose proof (max_len_update (sdb s) h (AValue u (v ++ skipn (length v) old))) as Hmx.
+           pose proof (lookup_stored_le _ _ _ Elk) as Hle. cbn [stored_len] in Hmx, Hle.
+           rewrite app_length, skipn_length in Hmx. clear Hcov. cbn [sdb set_wq set_db]. lia.
+      * (* not writable: refused at execution unless nothing was queued *)
+        destruct (chunks (nb_chunks (length v) (mtu - 5)) v (mtu - 5) 0) as [|w ws] eqn:Ech.
+        -- cbn [pend exec_queues fst snd ask_outcome acc_exec set_db set_wq sdb wq s_cmtu s_smtu crashed].
+           eexists _, _. split; [reflexivity|]. split; [exact I|]. split; [|reflexivity].
+           constructor; cbn [crashed wq sdb]; auto. exact (conj W1 W2).
+        -- rewrite (exec_pend_denied _ _ _ _ _ _ Elk Hp Hw) by discriminate.
+           cbn [fst snd ask_outcome acc_exec set_db set_wq sdb wq s_cmtu s_smtu crashed].
+           eexists _, _. split; [reflexivity|]. split; [exact I|]. split; [|reflexivity].
+           constructor; cbn [crashed wq sdb]; auto. exact (conj W1 W2).
     + rewrite (exec_pend_other _ _ _ _ Elk Hother).
       cbn [fst snd ask_outcome acc_exec set_db set_wq sdb wq s_cmtu s_smtu crashed].
       eexists _, _. split; [reflexivity|]. split; [exact I|]. split; [|reflexivity].
@@ -838,12 +926,12 @@ Proof.
     destruct (nb_chunks (length v) (mtu - 5)) as [|n] eqn:En; cbn [prep_loop].
     + change {| c_mtu := mtu; c_cmtu := cm; c_q := []; c_locked := true |} with (mkc mtu cm [] true).
       rewrite ask_spec by reflexivity.
-      unfold server_step. rewrite Hc. unfold srv_execute. cbn [N.eqb Pos.eqb]. rewrite Hq.
+      unfold server_step. unfold srv_execute. cbn [N.eqb Pos.eqb]. rewrite Hq.
       cbn [exec_queues fst snd ask_outcome acc_exec].
       eexists _, _. split; [reflexivity|]. split; [exact I|]. split; [|reflexivity].
       constructor; cbn [crashed wq sdb set_db set_wq]; auto. exact (conj W1 W2).
     + unfold xfer. cbn [encodable]. rewrite fits16_N by assumption. cbn [N.of_nat fits16 N.ltb N.compare andb].
-      unfold server_step. rewrite Hc. unfold srv_prepare. rewrite Elk.
+      unfold server_step. unfold srv_prepare. rewrite Elk.
       cbn [deliver]. unfold wait, set_q. cbn [c_q c_mtu c_cmtu c_locked app wait_in acc_prep is_err].
       eexists _, _. split; [reflexivity|]. split; [exact I|]. split; [assumption|reflexivity].
 Qed.
@@ -993,6 +1081,36 @@ Proof. constructor; cbn; auto. Qed.
 
 (** * Derived statements used by Property.v *)
 
+(** every long write to a characteristic value, in one equation *)
+Lemma write_long_result c s mtu h u old p v :
+  clean c s mtu -> value_at (sdb s) h u old p -> (N.of_nat (length v) < 65536)%N ->
+  client_write_long h v c s
+  = if writeable p || (length v =? 0)%nat
+    then (Ok VTrue, c, set_wq (set_db s (update (sdb s) h (AValue u (v ++ skipn (length v) old)))) [])
+    else (Raise (EAtt E_WRITE_NOT_PERMITTED), c, set_wq s []).
+Proof.
+  intros Hcl Hva Hv. pose proof Hva as (_ & _ & Hlk & _).
+  destruct (writeable p) eqn:Hw; cbn [orb].
+  - apply client_write_long_spec with (mtu := mtu) (p := p); assumption.
+  - destruct v as [|b v]; cbn [length Nat.eqb].
+    + rewrite (client_write_long_empty c s mtu h Hcl). cbn [app skipn length]. now rewrite update_same.
+    + apply (write_long_denied c s mtu h u old p (b :: v) Hcl Hva Hw); [discriminate|assumption].
+Qed.
+
+Lemma write_long_path_result c s mtu h u old p v :
+  clean c s mtu -> value_at (sdb s) h u old p -> (N.of_nat (length v) < 65536)%N ->
+  mtu - 3 < length v ->
+  client_write h v c s
+  = if writeable p
+    then (Ok VTrue, c, set_wq (set_db s (update (sdb s) h (AValue u (v ++ skipn (length v) old)))) [])
+    else (Raise (EAtt E_WRITE_NOT_PERMITTED), c, set_wq s []).
+Proof.
+  intros Hcl Hva Hv Hl. destruct (writeable p) eqn:Hw.
+  - apply write_redirects with (mtu := mtu) (p := p); assumption.
+  - apply (write_long_denied c s mtu h u old p v Hcl Hva Hw); [|assumption|assumption].
+    destruct v; [cbn [length] in Hl; lia|discriminate].
+Qed.
+
 Lemma write_ok_stores_partial c s mtu h u old p v c' s' :
   clean c s mtu -> value_at (sdb s) h u old p -> (N.of_nat (length v) < 65536)%N ->
   (length v <= mtu - 3 \/ length old <= length v) ->
@@ -1004,14 +1122,15 @@ Proof.
   - rewrite (write_plain c s mtu h u old p v Hcl Hva Hs) in He.
     destruct (writeable p); [|discriminate]. injection He as <- <-.
     cbn [set_db sdb]. eapply lookup_update_same; eauto.
-  - rewrite (write_redirects c s mtu h u old p v Hcl Hva Hv Hl) in He. injection He as <- <-.
+  - rewrite (write_long_path_result c s mtu h u old p v Hcl Hva Hv Hl) in He.
+    destruct (writeable p); [|discriminate]. injection He as <- <-.
     cbn [set_db set_wq sdb]. rewrite tail_nil by lia. eapply lookup_update_same; eauto.
 Qed.
 
 Lemma write_stored_value c s mtu h u old p v c' s' :
   clean c s mtu -> value_at (sdb s) h u old p -> (N.of_nat (length v) < 65536)%N ->
   client_write h v c s = (Ok VTrue, c', s') ->
-  c' = c
+  c' = c /\ writeable p = true
   /\ lookup (sdb s') h = Some (AValue u (if length v <=? mtu - 3 then v else v ++ skipn (length v) old))
   /\ (forall h', h' <> h -> lookup (sdb s') h' = lookup (sdb s) h')
   /\ wq s' = [] /\ crashed s' = false.
@@ -1024,7 +1143,8 @@ Proof.
     cbn [set_db sdb wq crashed]. repeat split; auto.
     + eapply lookup_update_same; eauto.
     + intros. now apply lookup_update_other.
-  - rewrite (write_redirects c s mtu h u old p v Hcl Hva Hv Hl) in He. injection He as <- <-.
+  - rewrite (write_long_path_result c s mtu h u old p v Hcl Hva Hv Hl) in He.
+    destruct (writeable p); [|discriminate]. injection He as <- <-.
     replace (length v <=? mtu - 3) with false by (symmetry; apply Nat.leb_gt; lia).
     cbn [set_db set_wq sdb wq crashed]. repeat split; auto.
     + eapply lookup_update_same; eauto.
@@ -1038,18 +1158,19 @@ Proof.
   intros Hcl Hva Hv Hw.
   destruct (Nat.le_gt_cases (length v) (mtu - 3)) as [Hs|Hl].
   - rewrite (write_plain c s mtu h u old p v Hcl Hva Hs), Hw. eauto.
-  - rewrite (write_redirects c s mtu h u old p v Hcl Hva Hv Hl). eauto.
+  - rewrite (write_long_path_result c s mtu h u old p v Hcl Hva Hv Hl), Hw. eauto.
 Qed.
 
 Lemma write_long_stored_value c s mtu h u old p v :
-  clean c s mtu -> value_at (sdb s) h u old p -> (N.of_nat (length v) < 65536)%N ->
+  clean c s mtu -> value_at (sdb s) h u old p -> writeable p = true ->
+  (N.of_nat (length v) < 65536)%N ->
   exists s', client_write_long h v c s = (Ok VTrue, c, s')
     /\ lookup (sdb s') h = Some (AValue u (v ++ skipn (length v) old))
     /\ (forall h', h' <> h -> lookup (sdb s') h' = lookup (sdb s) h')
     /\ wq s' = [] /\ crashed s' = false.
 Proof.
-  intros Hcl Hva Hv. pose proof Hva as (_ & _ & Hlk & _). pose proof Hcl as [_ _ Hwq Hcr _ _ _].
-  eexists. split; [apply client_write_long_spec with (p := p) (mtu := mtu); eassumption|].
+  intros Hcl Hva Hw Hv. pose proof Hva as (_ & _ & Hlk & _). pose proof Hcl as [_ _ Hwq Hcr _ _ _].
+  eexists. split; [rewrite (write_long_result c s mtu h u old p v Hcl Hva Hv), Hw; reflexivity|].
   cbn [set_db set_wq sdb wq crashed]. repeat split; auto.
   - eapply lookup_update_same; eauto.
   - intros. now apply lookup_update_other.
@@ -1061,9 +1182,20 @@ Lemma write_long_ok_stores_partial c s mtu h u old p v c' s' :
   client_write_long h v c s = (Ok VTrue, c', s') ->
   lookup (sdb s') h = Some (AValue u v).
 Proof.
-  intros Hcl Hva Hv Hlen He.
-  destruct (write_long_stored_value c s mtu h u old p v Hcl Hva Hv) as (s1 & He1 & Hl1 & _).
-  rewrite He1 in He. injection He as <- <-. now rewrite tail_nil in Hl1 by lia.
+  intros Hcl Hva Hv Hlen He. pose proof Hva as (_ & _ & Hlk & _).
+  rewrite (write_long_result c s mtu h u old p v Hcl Hva Hv) in He.
+  destruct (writeable p || (length v =? 0)%nat); [|discriminate]. injection He as <- <-.
+  cbn [set_db set_wq sdb]. rewrite tail_nil by lia. eapply lookup_update_same; eauto.
+Qed.
+
+(** a long write to a characteristic that is not writable is refused when executed: ATT error,
+    nothing stored, no prepared write left behind *)
+Lemma write_long_not_permitted c s mtu h u old p v :
+  clean c s mtu -> value_at (sdb s) h u old p -> writeable p = false -> v <> [] ->
+  (N.of_nat (length v) < 65536)%N ->
+  client_write_long h v c s = (Raise (EAtt E_WRITE_NOT_PERMITTED), c, set_wq s []).
+Proof.
+  intros Hcl Hva Hw Hne Hv. apply (write_long_denied c s mtu h u old p v Hcl Hva Hw Hne Hv).
 Qed.
 
 (** a long write to an attribute that is not a characteristic value: success, nothing stored *)
@@ -1080,7 +1212,7 @@ Proof.
   change {| c_mtu := mtu; c_cmtu := cm; c_q := []; c_locked := true |} with (mkc mtu cm [] true).
   rewrite (prep_loop_spec h v (mtu - 5) mtu cm a Hh Hv _ 0 [] s); try assumption; try lia.
   cbn [app]. rewrite ask_spec by reflexivity.
-  unfold server_step. cbn [set_wq crashed sdb wq]. rewrite Hc. unfold srv_execute.
+  unfold server_step. cbn [set_wq crashed sdb wq]. unfold srv_execute.
   cbn [N.eqb Pos.eqb set_wq crashed sdb wq].
   rewrite (exec_pend_other _ _ _ _ Hlk Ha).
   cbn [fst snd ask_outcome acc_exec releases mkc]. eexists. split; reflexivity.
@@ -1095,7 +1227,7 @@ Proof.
   intros [Hl Hq Hw Hc Hm1 Hm2 Hm] (Hh0 & Hh & Hlk & Hp) Hr.
   destruct c as [m cm q l]. cbn in Hl, Hq, Hm1. subst l q m.
   assert (Hsrv : server_step s (QRead h) = (s, Some (RErr OP_READ h E_READ_NOT_PERMITTED))).
-  { unfold server_step. rewrite Hc. unfold srv_read. apply N.eqb_neq in Hh0. now rewrite Hh0, Hlk, Hp, Hr. }
+  { unfold server_step. unfold srv_read. apply N.eqb_neq in Hh0. now rewrite Hh0, Hlk, Hp, Hr. }
   split.
   - unfold client_read, proclock, set_lock. cbn [c_locked c_mtu c_cmtu c_q].
     change {| c_mtu := mtu; c_cmtu := cm; c_q := []; c_locked := true |} with (mkc mtu cm [] true).
@@ -1116,19 +1248,19 @@ Proof.
   - unfold client_read, proclock, set_lock. cbn [c_locked c_mtu c_cmtu c_q].
     change {| c_mtu := mtu; c_cmtu := cm; c_q := []; c_locked := true |} with (mkc mtu cm [] true).
     rewrite ask_spec by (cbn [encodable]; now apply fits16_N).
-    unfold server_step. rewrite Hc. unfold srv_read. rewrite Hh0, Hlk. reflexivity.
+    unfold server_step. unfold srv_read. rewrite Hh0, Hlk. reflexivity.
   - unfold client_write, proclock, set_lock. cbn [c_locked c_mtu c_cmtu c_q].
     replace (mtu - 3 <? length v) with false by (symmetry; apply Nat.ltb_ge; lia).
     change {| c_mtu := mtu; c_cmtu := cm; c_q := []; c_locked := true |} with (mkc mtu cm [] true).
     rewrite ask_spec by (cbn [encodable]; now apply fits16_N).
-    unfold server_step. rewrite Hc. unfold srv_write. rewrite Hh0, Hlk. reflexivity.
+    unfold server_step. unfold srv_write. rewrite Hh0, Hlk. reflexivity.
 Qed.
 
-(** a plain write to a descriptor is never answered: GATT timeout, nothing stored *)
-Lemma write_descriptor_times_out c s mtu h u x v :
+(** a plain write to a descriptor is refused: ATT error, nothing stored *)
+Lemma write_descriptor_raises c s mtu h u x v :
   clean c s mtu -> (h < 65536)%N -> h <> 0%N -> lookup (sdb s) h = Some (ADesc u x) ->
   length v <= mtu - 3 ->
-  client_write h v c s = (Raise ETimeout, c, s).
+  client_write h v c s = (Raise (EAtt E_WRITE_NOT_PERMITTED), c, s).
 Proof.
   intros [Hl Hq Hw Hc Hm1 Hm2 Hm] Hh Hh0 Hlk Hlen.
   destruct c as [m cm q l]. cbn in Hl, Hq, Hm1. subst l q m. apply N.eqb_neq in Hh0.
@@ -1136,7 +1268,7 @@ Proof.
   replace (mtu - 3 <? length v) with false by (symmetry; apply Nat.ltb_ge; lia).
   change {| c_mtu := mtu; c_cmtu := cm; c_q := []; c_locked := true |} with (mkc mtu cm [] true).
   rewrite ask_spec by (cbn [encodable]; now apply fits16_N).
-  unfold server_step. rewrite Hc. unfold srv_write. rewrite Hh0, Hlk. reflexivity.
+  unfold server_step. unfold srv_write. rewrite Hh0, Hlk. reflexivity.
 Qed.
 
 (** * Witnesses *)
